@@ -186,6 +186,28 @@ func (l *Layout) sliceOf(s *ssa.Slice, d int) string {
 		if src := copiedInto(a); src != nil {
 			return l.of(src, d+1)
 		}
+		// var buf [32]byte; x.FillBytes(buf[:]); … buf[:] — the whole array filled by exactly one FillBytes
+		if n == 32 && s.Low == nil && s.High == nil {
+			var fills []*ssa.Call
+			other := false
+			for _, ref := range *a.Referrers() {
+				sl, isSl := ref.(*ssa.Slice)
+				if !isSl {
+					if _, isDbg := ref.(*ssa.DebugRef); !isDbg {
+						other = true
+					}
+					continue
+				}
+				for _, r2 := range *sl.Referrers() {
+					if c, isC := r2.(*ssa.Call); isC && CallName(c) == "(*math/big.Int).FillBytes" && len(c.Call.Args) == 2 && c.Call.Args[1] == ssa.Value(sl) && sl.Low == nil && sl.High == nil {
+						fills = append(fills, c)
+					}
+				}
+			}
+			if len(fills) == 1 && !other && Dominates(fills[0], s) {
+				return "U256BE(" + l.Sx.Of(fills[0].Call.Args[0]).String() + ")"
+			}
+		}
 		// a value (parameter / local) spilled to a cell because its address is taken: arr[:]
 		if st := storesTo(a); len(st) == 1 && (n == 20 || n == 32) {
 			return l.raw(st[0], n)
